@@ -2,6 +2,7 @@ package main
 
 import (
 	"fmt"
+	"os"
 	"math/rand"
 	"sort"
 	"strings"
@@ -170,6 +171,9 @@ func (e *Engine) realise(nr needRealise, dec []bool) Failure {
 		stack = stack[:len(stack)-1]
 		e.solver.send("(push 1)")
 		out := e.runOnce(d, nr.seq)
+		if os.Getenv("GOSYM_DEBUG") != "" {
+			fmt.Fprintf(os.Stderr, "  realise try %d: len(d)=%d -> %T\n", tries, len(d), out)
+		}
 		alts := e.alts
 		uf := e.ufApps
 		e.solver.send("(pop 1)")
